@@ -30,6 +30,7 @@ EXPLANATION = ("a: the closure handed to thread::spawn in execute_rules_parallel
                "max_threads) fed to chunks().")
 EXPLANATION += " c (added): the buffer the level's results are read from is created empty inside execute_rules_parallel (a buffer shared across levels re-reports earlier levels). b (added): an ordered map walked with .rev() is accepted as descending level order; joining through handles.into_iter().try_for_each(|h| h.join()..) is accepted."
 EXPLANATION += ' c (added): no Barrier / Condvar / channel recv / park is reachable from the worker closures (workers never wait for each other: the number of chunks can be smaller than any precomputed worker count).'
+EXPLANATION += ' b (added): execute_parallel regroups the rules of the knowledge base it was given on every call (no grouping behind a version-keyed cache).'
 FLOORS = {"spawn_sites": 1, "lock_sites": 30}
 
 PE = "engine::parallel::ParallelRuleEngine"
@@ -252,6 +253,13 @@ def _same_evaluator(P, R):
         R.hold("b", "group_rules_by_salience keeps enabled rules only, grouped by their salience", fn=gr)
     else:
         R.violate("b", "grouping", "group_rules_by_salience does not filter on rule.enabled / group by rule.salience (enabled guard=%s, key=%s)" % (bool(okg), bool(key_ok)), gr)
+    # the groups are computed from the knowledge base handed to THIS call, on every call: a cache keyed by the version number
+    # alone replays the groups of a different knowledge base that happens to have the same version
+    gcalls = [c for c in ep.calls() if c.bb in ep.normal_blocks() and c.resolved == gr.name]
+    if gcalls and A.always_calls_before_return(ep, [c.bb for c in gcalls]) and not any(isinstance(g_["polarity"], (bool, int, str)) and "version" in fmt_sym(g_["cond"], maxdepth=8) for c in gcalls for g_ in A.guards_of(ep, c.bb)):
+        R.hold("b", "execute_parallel groups the rules of its own knowledge base argument on every call", fn=ep, line=gcalls[0].line)
+    elif gcalls:
+        R.violate("b", "grouping-not-per-call", "execute_parallel does not regroup the rules of the knowledge base it was given on every call (the grouping sits behind a condition / cache): a second knowledge base with the same version number is executed with the first one's rules", ep, gcalls[0].line)
     # descending levels
     check_sorts_desc(P, R, ep)
 
